@@ -98,6 +98,8 @@ def plan_names(entry, family, thorough):
     elif family == 'renumbered':
         for v in ('lx', 'hl', 'both'):
             yield v
+    elif family == 'subsep':
+        yield 'S'
     elif family == 'trailing':
         yield 'T'
 
@@ -142,7 +144,7 @@ def pad(payload, mn, mx):
     return payload + 'x' * max(0, mn - len(payload))
 
 
-def payload_doc(entry, payload):
+def payload_doc(entry, payload, simple_only=False):
     """-> (Doc, number of elements carrying the payload)"""
     base = base_doc(entry)
     if base is None:
@@ -163,7 +165,7 @@ def payload_doc(entry, payload):
                 v = pad(payload, de[c.de][1], de[c.de][2])
                 if v is not None:
                     s[c.seq] = v; n += 1
-            elif c.usage != 'N' and isinstance(s[c.seq], list):
+            elif c.usage != 'N' and isinstance(s[c.seq], list) and not simple_only:
                 for k, x in enumerate(c.children):
                     if x is q or not is_freetext(x) or k >= len(s[c.seq]) or s[c.seq][k] == '':
                         continue
@@ -279,13 +281,17 @@ def make_doc(case):
             info = len(d.segs) if d is not None else 0
         elif fam == 'renumbered':
             d, info = renumbered_doc(entry, case['plan'])
+        elif fam == 'subsep':
+            # the document's own component separator inside SIMPLE free-text elements (a URL, a time): an element data error
+            # at most -- the segment is still located in its map, and the whole element text makes the round trip
+            d, info = payload_doc(entry, 'A' + DELIMS[case.get('delims', 0)][2] + 'B' + DELIMS[case.get('delims', 0)][2] + 'C', simple_only=True)
         else:
             d, info = notused_doc(entry)
     except gen.Ungeneratable:
         return None, 'not generatable', 0
     if d is None:
         return None, 'no base document', 0
-    if fam in ('payload', 'notused', 'renumbered') and info == 0:
+    if fam in ('payload', 'notused', 'renumbered', 'subsep') and info == 0:
         return None, 'no target element in the base document', 0
     if gen.selfcheck(d):
         return None, 'reference parser does not reproduce the generating nodes', 0
@@ -470,7 +476,7 @@ def check_seg(i, el, s, node, V, isa16=None):
     return vals
 
 
-def check_back(doc, back, V):
+def check_back(doc, back, V, src_sub=None):
     if not ref.header_ok(back):
         V.append(('C08|convert|output does not start with a well-formed ISA', 'first characters %r' % back[:110]))
         return
@@ -493,6 +499,11 @@ def check_back(doc, back, V):
                 if dd:
                     got[p] = dd
         want = src_values(s)
+        if src_sub:
+            # a source value written with the document's component separator inside IS several components (family subsep)
+            for p in list(want):
+                if isinstance(want[p], str) and src_sub in want[p]:
+                    want[p] = dict((k, x) for k, x in enumerate(want[p].split(src_sub), 1) if x != '')
         if s[0] == 'ISA':
             # ISA16 always, ISA11 only in 00501, are delimiters (rewritten with the converter's own); in 00401 ISA11 is data
             for p in ((11, 16) if (len(s) > 12 and s[12] == '00501') else (16,)):
@@ -532,7 +543,7 @@ def judge(case):
     seg_t, ele_t, sub_t = DELIMS[case.get('delims', 0)]
     bad = OUT_DELIMS + seg_t + ele_t + sub_t
     for s in doc.segs:
-        if s[0] == 'ISA':
+        if s[0] == 'ISA' or case['family'] == 'subsep':
             continue
         for v in s[1:]:
             for x in (v if isinstance(v, list) else [v]):
@@ -575,7 +586,7 @@ def judge(case):
     except Exception as e:
         V.append(('C08|convert|raises %s@%s' % (type(e).__name__, core.where(e)), 'converting the XML back raised %r' % e))
         return V, None, labels, info
-    check_back(doc, out.getvalue(), V)
+    check_back(doc, out.getvalue(), V, sub_t if case['family'] == 'subsep' else None)
     # one key once per document
     seen = set(); V2 = []
     for k, m in V:
@@ -639,6 +650,9 @@ def run(R):
             shards.append((f, 'notused', dl, 0, 1, R.thorough))
             if dl == 0:
                 shards.append((f, 'renumbered', dl, 0, 1, R.thorough))
+                # only under ~ * : -- the converter writes with ':' whatever the source used, so under another source separator the
+                # text comes back unchanged but no longer means several components; the statement does not settle that case
+                shards.append((f, 'subsep', dl, 0, 1, R.thorough))
             shards.append((f, 'trailing', dl, 0, 1, R.thorough))
         if R.thorough:
             n = 48 if f.startswith('837') else (12 if big else 2)
